@@ -1,6 +1,7 @@
 (* C15 property theorems *)
 From Coq Require Import ZArith List Bool.
 From EP Require Import C15.Model C15.Proofs C15.Keys C15.KeysProofs.
+From EP Require Gen.C15Shape.
 Import ListNotations.
 Open Scope Z_scope.
 
@@ -87,6 +88,28 @@ Proof.
   exact (tsize_tput key same_key_spec spec_sym spec_trans m k v W).
 Qed.
 Print Assumptions C15_typed_map_laws.
+(* map:merge over typed keys: the result never holds two entries with the same key, and each entry of an operand is
+   merged under the duplicates policy (0 use-first | 1 use-last | 2 reject = FOJS0003 | 3 combine = concatenation) *)
+Theorem C15_typed_merge : forall p ms (m : tmap key) k v k',
+  (tmerge same_key_spec p ms = Some m -> twf same_key_spec m) /\
+  (twf same_key_spec m ->
+   match tlookup same_key_spec m k with
+   | None => exists m', tmerge_one same_key_spec p m (k, v) = Some m' /\
+                        tget same_key_spec m' k' = if same_key_spec k k' then v else tget same_key_spec m k'
+   | Some old =>
+       if p =? 0 then tmerge_one same_key_spec p m (k, v) = Some m
+       else if p =? 1 then exists m', tmerge_one same_key_spec p m (k, v) = Some m' /\
+                                      tget same_key_spec m' k' = if same_key_spec k k' then v else tget same_key_spec m k'
+       else if p =? 2 then tmerge_one same_key_spec p m (k, v) = None
+       else exists m', tmerge_one same_key_spec p m (k, v) = Some m' /\
+                       tget same_key_spec m' k' = if same_key_spec k k' then old ++ v else tget same_key_spec m k'
+   end).
+Proof.
+  intros p ms m k v k'. split.
+  - exact (tmerge_wf key same_key_spec p ms m).
+  - exact (tmerge_one_spec key same_key_spec spec_sym spec_trans p m k v k').
+Qed.
+Print Assumptions C15_typed_merge.
 Example C15_typed_nonvacuous :
   let m := tput same_key_spec (tput same_key_spec [] (KN TInteger (NFin 1 1)) [7]) (KS FUntyped 1) [8] in
   twf same_key_spec m /\ tget same_key_spec (tput same_key_spec m (KN TDouble (NFin 2 2)) [9]) (KN TDecimal (NFin 10 10)) = [9] /\
@@ -101,3 +124,9 @@ Example C15_nonvacuous :
   map_merge Combine [[(1, [1; 2])]; [(1, [3])]] = MOk [(1, [1; 2; 3])] /\ array_get [[1]; [2]] 3 = AErr 1 /\
   array_subarray [[1]; [2]; [3]] 2 (Some 2) = AOk [[2]; [3]].
 Proof. unfold wf. vm_compute. repeat split; repeat constructor; cbn; intuition discriminate. Qed.
+
+(* the statements of /repo that C15/Keys.v (same_key) and C15/Model.v (put / remove / contains / merge) mirror are present
+   in the source as read on this run (T-data, harness/shape.py -> Gen/C15Shape.v) *)
+Theorem C15_source_shape : Gen.C15Shape.shape_ok = true.
+Proof. reflexivity. Qed.
+Print Assumptions C15_source_shape.
